@@ -40,7 +40,7 @@ class Profile:
     max_depth: int = 2                  # top is depth 0: up to 3 levels
     max_members: int = 5
     min_top_members: int = 1
-    max_jobs: int = 14
+    max_jobs: int = 16
     p_nested: int = 22
     p_empty_nested: int = 4
     durations: tuple = ((0, 3), (1, 4), (2, 3), (3, 2), (4, 1), (5, 1), (6, 1))
@@ -66,6 +66,8 @@ class Profile:
     allow_empty: bool = True
     hkeys: int = 16
     tkeys: int = 4
+    p_big: int = 8                      # % of schedulers that may have up to big_members
+    big_members: int = 9
     force_nested: int = 0               # % of cases whose top has a nested scheduler for sure
 
     def but(self, **kw):
@@ -126,7 +128,8 @@ def _draw_sched(draw, prof, depth, under_timeout, budget, top=False):
     lo = prof.min_top_members if top else 0
     if not top and not prof.allow_empty:
         lo = 1
-    hi = max(lo, min(prof.max_members, budget[0]))
+    hi = max(lo, min(prof.big_members if chance(draw, prof.p_big) else prof.max_members,
+                     budget[0]))
     if not top and prof.allow_empty and chance(draw, prof.p_empty_nested):
         n = 0
     else:
